@@ -6,7 +6,7 @@
 (* source of truth.                                                        *)
 (*                                                                         *)
 (*  type Q { a:Int b:Int c:Int s:String nn:Int! o:O n:O! l:[O] ln:[O!]     *)
-(*           lnn:[O!]! i:I u:U il:[I] e:E                                  *)
+(*           lnn:[O!]! i:I u:U il:[I] e:E ll:[[O]]                         *)
 (*           f(x:Int=7, y:Int, z:[Int], in:In, en:E):Int }                 *)
 (*  type O { x:String y:String z:O w:Int! }                                *)
 (*  interface I { x:String }   type A implements I { x:String p:String }   *)
@@ -36,6 +36,7 @@ S1 ==
                  F("o", N("O")), F("n", TNN(N("O"))), F("l", TList(N("O"))),
                  F("ln", TList(TNN(N("O")))), F("lnn", TNN(TList(TNN(N("O"))))),
                  F("i", N("I")), F("u", N("U")), F("il", TList(N("I"))), F("e", N("E")),
+                 F("ll", TList(TList(N("O")))),
                  [name |-> "f", type |-> N("Int"),
                   args |-> << ArgD("x", N("Int"), IntV("7")), Arg("y", N("Int")),
                               Arg("z", TList(N("Int"))), Arg("in", N("In")), Arg("en", N("E")) >>],
